@@ -316,6 +316,11 @@ func genWatchShaped(r *sx.Rng) spec {
 	if r.Chance(1, 10) {
 		s.keys = []string{""}
 	}
+	if r.Chance(1, 4) {
+		// the key as a third filter of its own, with any operator: only "=" makes a watch
+		s.keys = nil
+		s.items = append(s.items, item{field: "key", op: sx.Pick(r, []string{"=", "!=", "!=", "&", "<"}), text: safeStr(r, 1+r.Intn(6)), isStr: true})
+	}
 	return s
 }
 
@@ -329,8 +334,14 @@ func genSpec(r *sx.Rng) spec {
 	s.prepend = r.Chance(1, 5)
 	wantValid := !r.Chance(1, 6)
 	n := r.Intn(6)
+	atLimit := false
 	if r.Chance(1, 25) {
 		n = 60 + r.Intn(8)
+	} else if r.Chance(1, 25) {
+		// exactly at the 64-field limit, where the keys are one field more
+		n = sx.Pick(r, []int{63, 64, 64, 64, 65})
+		atLimit = true
+		wantValid = true
 	}
 	curArch := "x86_64"
 	if runtime.GOARCH != "amd64" {
@@ -392,6 +403,9 @@ func genSpec(r *sx.Rng) spec {
 		}
 	}
 	nk := r.Intn(4)
+	if atLimit && nk == 0 && r.Chance(2, 3) {
+		nk = 1
+	}
 	for i := 0; i < nk; i++ {
 		s.keys = append(s.keys, safeStr(r, 1+r.Intn(12)))
 	}
@@ -845,10 +859,10 @@ func modeTotal(seed uint64, n int, out *sx.Out) {
 				if oc == "OOk" {
 					bs = "(Some " + sx.Hx(built) + ")"
 				}
-				if oc == "OOk" && sweep%7 != 0 {
-					continue // accepted rules are covered by the build mode; keep a sample
+				if (list == "user" || list == "task") && sweep%5 != 0 {
+					continue // the value parsers do not depend on the list; the admission rules do: a sample
 				}
-				out.Case(fmt.Sprintf("TBuild %d %s %s", 1, oc, bs), map[string]interface{}{"list": list, "field": f, "op": op, "rhs": rhs, "outcome": oc, "detail": detail}, "value-sweep/"+oc, oc != "OPanic")
+				out.Case(fmt.Sprintf("TVal %s %s %s %s %s %s", cs(list), cs(f), cs(op), cs(rhs), oc, bs), map[string]interface{}{"list": list, "field": f, "op": op, "rhs": rhs, "outcome": oc, "detail": detail}, "value-sweep/"+oc, oc != "OPanic")
 			}
 		}
 	}
